@@ -97,18 +97,62 @@ Fixpoint path_up {V} (a : arena V) (fuel cur : nat) (acc : list (nat * nat)) : r
 Definition path_to_node {V} (a : arena V) (node : nat) : res (option (list (nat * nat))) :=
   if acontains a node then path_up a (S (alen a)) node [] else ROk None.
 
+(* depth_stats: (min, mean, sample variance, max) of the depths of the terminals in dfs order.  The accumulators of
+   the `average` crate (Min, Max, Variance: Welford's update in f64) are third-party code and are modelled by what
+   they compute: the exact minimum / maximum, the exact mean and the exact sample variance (NaN = None below two
+   samples; min/max of an empty sample cannot occur, a tree has a terminal). *)
+Definition stats_of (l : list nat) : option nat * option Qc * option Qc * option nat :=
+  (list_min l, sample_mean l, sample_var l, list_max_opt l).
+Definition depth_stats {V} (a : arena V) (troot : nat) : res (option nat * option Qc * option Qc * option nat) :=
+  res_map stats_of (terminal_depths a troot).
+
 (* ---------------------------------------------------------------- direct definitions on the tree *)
 Definition no_kids (ch : list (option itree)) : bool := forallb (fun o => match o with None => true | Some _ => false end) ch.
-(* depths of the nodes without children, left to right *)
-Fixpoint leafdepths (d : nat) (t : itree) : list nat :=
+(* the nodes of t, in pre-order, that have no children (want = true) resp. have children (want = false), each
+   mapped through f depth index *)
+Fixpoint selmap {B} (want : bool) (f : nat -> nat -> B) (d : nat) (t : itree) : list B :=
   match t with
-  | IN _ ch =>
-    if no_kids ch then [d]
-    else flat_map (fun o => match o with Some c => leafdepths (S d) c | None => [] end) ch
+  | IN i ch =>
+    (if Bool.eqb (no_kids ch) want then [f d i] else []) ++
+    flat_map (fun o => match o with Some c => selmap want f (S d) c | None => [] end) ch
   end.
+(* depths of the nodes without children, left to right *)
+Definition leafdepths (d : nat) (t : itree) : list nat := selmap true (fun d _ => d) d t.
 Definition nleaves (t : itree) : nat := length (leafdepths 0 t).
+(* indices of the nodes without / with children, in pre-order *)
+Definition leaf_indices (t : itree) : list nat := selmap true (fun _ i => i) 0 t.
+Definition inner_indices (t : itree) : list nat := selmap false (fun _ i => i) 0 t.
 (* indices in pre-order *)
 Definition indices (t : itree) : list nat := map n_index (pre 0 0 t).
+Fixpoint idxs (t : itree) : list nat :=
+  match t with IN i ch => i :: flat_map (fun o => match o with Some c => idxs c | None => [] end) ch end.
+(* executable form of the invariant [minv] of IterMetricsProofs.v (sound: minvb_sound); the runner evaluates it on
+   every dumped arena, it returns the tree the arena unfolds to *)
+Definition all_noneb (l : list (option nat)) : bool :=
+  forallb (fun o => match o with None => true | Some _ => false end) l.
+Fixpoint nodupb (l : list nat) : bool :=
+  match l with [] => true | x :: l' => negb (existsb (Nat.eqb x) l') && nodupb l' end.
+Definition cell_okb {V} (a : arena V) (i : nat) (c : cell V) : bool :=
+  Bool.eqb (c_leaf c) (all_noneb (c_children c)) &&
+  forallb (fun o => match o with
+                    | None => true
+                    | Some j => match aget a j with
+                                | Some cj => match c_parent cj with Some p => p =? i | None => false end
+                                | None => false
+                                end
+                    end) (c_children c) &&
+  nodupb (somes (c_children c)).
+Definition minvb {V} (a : arena V) (r : nat) : option itree :=
+  match unfold a (S (length a)) r with
+  | None => None
+  | Some T =>
+    if (alen a =? size T) && nodupb (idxs T) &&
+       match aget a r with Some c => match c_parent c with None => true | Some _ => false end | None => false end &&
+       forallb (fun i => match aget a i with Some c => cell_okb a i c | None => true end) (seq 0 (length a))
+    then Some T else None
+  end.
+
+Definition depth_stats_direct (t : itree) : option nat * option Qc * option Qc * option nat := stats_of (leafdepths 0 t).
 (* the path (node, label) .. from the root of t down to the node with index target *)
 Definition path_slots_gen (f : itree -> option (list (nat * nat))) (i : nat)
   : nat -> list (option itree) -> option (list (nat * nat)) :=
@@ -125,3 +169,15 @@ Fixpoint path_find (target : nat) (t : itree) : option (list (nat * nat)) :=
   match t with
   | IN i ch => if i =? target then Some [] else path_slots_gen (path_find target) i 0 ch
   end.
+Definition path_slots (target i : nat) : nat -> list (option itree) -> option (list (nat * nat)) :=
+  path_slots_gen (path_find target) i.
+Lemma path_find_unfold target i ch :
+  path_find target (IN i ch) = if i =? target then Some [] else path_slots target i 0 ch.
+Proof. reflexivity. Qed.
+Lemma path_slots_cons target i lab o l :
+  path_slots target i lab (o :: l) =
+  match (match o with Some c => path_find target c | None => None end) with
+  | Some p => Some ((i, lab) :: p)
+  | None => path_slots target i (S lab) l
+  end.
+Proof. reflexivity. Qed.
